@@ -45,6 +45,17 @@ def random_large(rng, n):
     return out
 
 
+def boundary_families():
+    vals = [0, 1, 2, 9, 10, 2 ** 32 - 1, 2 ** 32, 2 ** 63 - 1, 2 ** 63, 2 ** 64 - 2, 2 ** 64 - 1]
+    texts = ["a", "a1", "a2", "a10", "1a", "10a", "2a", "-", "-1", "--", "0a", "0-", "A", "Z", "a-", "a-1", "aa", "b", "rc", "RC", "rc1", "rc10", "rc2"]
+    out = []
+    for v in vals:
+        out += ["%d.0.0" % v, "1.%d.0" % v, "1.0.%d" % v, "1.0.0-%d" % v, "1.0.0-rc.%d" % v, "1.0.0-%d.a" % v, "1.0.0-a.%d.b" % v, "1.0.0-0.%d" % v]
+    for t in texts:
+        out += ["1.0.0-%s" % t, "1.0.0-rc.%s" % t, "1.0.0-%s.1" % t, "1.0.0-1.%s" % t, "1.0.0-%s.%s" % (t, t)]
+    return out
+
+
 def key(s):
     return ref.key(ref.parse(s, allow_v=True))
 
@@ -84,7 +95,7 @@ def run(ctx):
     # build-metadata variants of a few members must be Equal to the bare version
     extra = [s + rng.choice(["+x", "+1", "+0.a", "+b-1"]) for s in rng.sample(sub, 300)]
     strs, bad = cmpcommon.all_pairs(ctx, "semver", sub + extra, key, "small_universe")
-    large = random_large(rng, 5000 if quick else 14000)
+    large = random_large(rng, 5000 if quick else 14000) + boundary_families()
     strs2, bad2 = cmpcommon.all_pairs(ctx, "semver", large, key, "random_large")
     for strs_, bad_ in ((strs, bad), (strs2, bad2)):
         for sig, why, i, j, cell in bad_:
